@@ -10,6 +10,8 @@ use std::num::ParseIntError;
 //@include prelude/lit_env.rs
 //@include prelude/lit_lemmas.rs
 //@include prelude/visitor_lit_env.rs
+//@include prelude/parse_spec.rs
+//@include prelude/visitor_num_env.rs
 //@include prelude/chain_spec.rs
 //@item antlr/src/parser.rs :: struct LogicManager
 //@include prelude/visitor_bin_env.rs
@@ -19,6 +21,9 @@ use std::num::ParseIntError;
 //@verify visitor.negate
 //@verify visitor.string
 //@verify visitor.bytes
+//@verify visitor.int
+//@verify visitor.uint
+//@verify visitor.double
 //@verify visitor.relation
 //@verify visitor.calc
 //@verify visitor.expr
